@@ -462,32 +462,34 @@ def euler_defs(m4, v3):
                "  mul F (mul F (rotateAxis F T a0 r.x) (rotateAxis F T a1 r.y)) (rotateAxis F T a2 r.z)\n")
     # eulerAngles(int, int, int)
     b = body_of(m4, r"Vec3_<T> Matrix4_<T>::eulerAngles\(int a0, int a1, int a2\) const\s*\{", "Matrix4_::eulerAngles")
-    m = must(r"T r0, r1, r2; const T lim = sizeof\(T\) == sizeof\(float\) \? T\(1 - [0-9.e-]+\) : T\(1 - [0-9.e-]+\); "
-             r"if \(a0 != a2\) \{ T s = \(a1 - a0 \+ 3\) % 3 == 1 \? -1\.0f : 1\.0f; "
-             r"if \((.*?)\) \{ r1 = (.*?); r2 = (.*?); r0 = (.*?); \} else \{ r1 = (.*?); r2 = (.*?); r0 = (.*?); \} "
+    m = must(r"T r0, r1, r2; const T lim = sizeof\(T\) == sizeof\(float\) \? T\([0-9.e-]+\) : T\([0-9.e-]+\); "
+             r"if \(a0 != a2\) \{ T s = \(a1 - a0 \+ 3\) % 3 == 1 \? -1\.0f : 1\.0f; T c = (.*?); r1 = (.*?); "
+             r"if \((.*?)\) \{ r2 = (.*?); r0 = (.*?); \} else \{ r2 = (.*?); r0 = (.*?); \} "
              r"return Vec3_<T>\(r2, r1, r0\); \} "
-             r"else \{ int k = 3 - a0 - a1; T s = \(a1 - a0 \+ 3\) % 3 == 2 \? -1\.0f : 1\.0f; "
-             r"if \((.*?)\) \{ r1 = (.*?); r2 = (.*?); r0 = (.*?); \} else \{ r1 = (.*?) \? \(T\)PI : 0; r2 = (.*?); r0 = (.*?); \} \} "
+             r"else \{ int k = 3 - a0 - a1; T s = \(a1 - a0 \+ 3\) % 3 == 2 \? -1\.0f : 1\.0f; T c = (.*?); r1 = (.*?); "
+             r"if \((.*?)\) \{ r2 = (.*?); r0 = (.*?); \} else \{ r2 = (.*?); r0 = (.*?); \} \} "
              r"return Vec3_<T>\(r2, r1, r0\);", b, "Matrix4_::eulerAngles")
     g = m.groups()
-    A = Env(mats={"at": "a"}, scalars={"s": "s", "lim": "lim", "PI": "T.pi"}, idx=("a0", "a1", "a2", "k"))
+    A = Env(mats={"at": "a"}, scalars={"s": "s", "c": "c", "lim": "lim", "PI": "T.pi"}, idx=("a0", "a1", "a2", "k"))
     ex = lambda x: emit(parse_expr(x), A)
     cd = lambda x: emit_cond(parse_cond(x), A)
     out.append(
-        "/-- `Matrix4_<T>::eulerAngles(int a0, int a1, int a2)` for axis indices in {0,1,2}; `lim` is the gimbal-lock threshold\n"
-        "(`T(1 - 5e-7)` for float, `T(1 - 1e-15)` for double in the source) -/\n"
+        "/-- `Matrix4_<T>::eulerAngles(int a0, int a1, int a2)` for axis indices in {0,1,2}; `lim` is the gimbal-lock threshold on the\n"
+        "cosine (sine) `c` of the middle angle (`T(2e-6)` for float, `T(4e-15)` for double in the source) -/\n"
         "def eulerAngles (F : Fld K) (C : Cmp K) (T : Trig K) (lim : K) (a : Nat → Nat → K) (a0 a1 a2 : Nat) : V3 K :=\n"
         "  if a0 ≠ a2 then\n"
         "    let s := if (a1 + 3 - a0) %% 3 = 1 then F.neg (F.lit 1) else F.lit 1\n"
-        "    if %s then\n      let r1 := %s\n      let r2 := %s\n      let r0 := %s\n      V3.mk r2 r1 r0\n"
-        "    else\n      let r1 := %s\n      let r2 := %s\n      let r0 := %s\n      V3.mk r2 r1 r0\n"
+        "    let c := %s\n    let r1 := %s\n"
+        "    if %s then\n      let r2 := %s\n      let r0 := %s\n      V3.mk r2 r1 r0\n"
+        "    else\n      let r2 := %s\n      let r0 := %s\n      V3.mk r2 r1 r0\n"
         "  else\n"
         "    let k := 3 - a0 - a1\n"
         "    let s := if (a1 + 3 - a0) %% 3 = 2 then F.neg (F.lit 1) else F.lit 1\n"
-        "    if %s then\n      let r1 := %s\n      let r2 := %s\n      let r0 := %s\n      V3.mk r2 r1 r0\n"
-        "    else\n      let r1 := if %s then T.pi else F.lit 0\n      let r2 := %s\n      let r0 := %s\n      V3.mk r2 r1 r0\n"
-        % (cd(g[0]), ex(g[1]), ex(g[2]), ex(g[3]), ex(g[4]), ex(g[5]), ex(g[6]),
-           cd(g[7]), ex(g[8]), ex(g[9]), ex(g[10]), cd(g[11]), ex(g[12]), ex(g[13])))
+        "    let c := %s\n    let r1 := %s\n"
+        "    if %s then\n      let r2 := %s\n      let r0 := %s\n      V3.mk r2 r1 r0\n"
+        "    else\n      let r2 := %s\n      let r0 := %s\n      V3.mk r2 r1 r0\n"
+        % (ex(g[0]), ex(g[1]), cd(g[2]), ex(g[3]), ex(g[4]), ex(g[5]), ex(g[6]),
+           ex(g[7]), ex(g[8]), cd(g[9]), ex(g[10]), ex(g[11]), ex(g[12]), ex(g[13])))
     # const char* wrappers: "XYZ" = moving axes, "XYZ*" = fixed axes (reversed order, reversed components)
     if not re.search(r"Vec3_<T> zyx\(\) const \{ return Vec3_<T>\(z, y, x\); \}", norm(v3)):
         raise TranslateError("Vec3_::zyx changed")
@@ -542,11 +544,12 @@ def axis_defs(qh, m4, v3):
     out.append("/-- `Quaternion_::fromAxisAngle(v)` (rotation vector) -/\n"
                "def fromRotVec (F : Fld K) (C : Cmp K) (T : Trig K) (v : V3 K) : Quat K :=\n  fromAxisAngle F C T v (length F C v)\n")
     b = body_of(qh, r"T angle\(\) const\s*\{", "Quaternion_::angle")
-    m = must(r"T a = \((.*?)\) \? 0 : \((.*?)\) \? \((.*?)\) : (.*?); return (.*?) \? a : (.*?);", b, "Quaternion_::angle")
+    m = must(r"T a = (.*?); return (.*?) \? a : (.*?);", b, "Quaternion_::angle")
     g = m.groups()
+    Aq = Env(scalars={"w": "p.w", "x": "p.x", "y": "p.y", "z": "p.z", "a": "a", "PI": "T.pi"})
     out.append("/-- `Quaternion_::angle()` -/\ndef angle (F : Fld K) (C : Cmp K) (T : Trig K) (p : Quat K) : K :=\n"
-               "  let a := if %s then F.lit 0 else if %s then %s else %s\n  if %s then a else %s\n"
-               % (cd(g[0]), cd(g[1]), ex(g[2]), ex(g[3]), cd(g[4]), ex(g[5])))
+               "  let a := %s\n  if %s then a else %s\n"
+               % (emit(parse_expr(g[0]), Aq), emit_cond(parse_cond(g[1]), Aq), emit(parse_expr(g[2]), Aq)))
     b = body_of(qh, r"Vec3_<T> axisAngle\(\) const\s*\{", "Quaternion_::axisAngle")
     must(r"Vec3_<T> v\(x, y, z\); T k = v\.length\(\); return \(k == 0\) \? Vec3_<T>\(0, 0, 0\) : v \* \(angle\(\) / k\);", b, "Quaternion_::axisAngle")
     out.append("/-- `Quaternion_::axisAngle()` -/\ndef axisAngle (F : Fld K) (C : Cmp K) (T : Trig K) (p : Quat K) : V3 K :=\n"
